@@ -374,6 +374,7 @@ def P(pid):
             ('RF-Q the larger-interval sub-proofs are given the bound of the remainder', CL.rule_remainder_bound, 3),
             ('RF-Q tolerance exponent shape', CL.rule_tolerance_exponent, 2),
             ('RF-Q the tolerance parameter T = 2(t + l + 1) + bit length of the width', CL.rule_tolerance_parameter, 3),
+            ('RF-J sub-provers of the range proof are handed the commitment their value and randomness open', CL.rule_opening_triples, 5),
             ('RF-F secure_pow_mod exponents are positive by construction', CL.rule_secure_pow_exponents, 2),
             ('RF-Q the honest prover refuses out-of-range values', CL.rule_prover_refuses_out_of_range, 3),
             ('RF-W acceptance conditions test the combinations of inputs tested before', lambda c: rf_gatesets.rule_gate_sets(c, group='cl03', only=['Boudot2000RangeProof::verify']), 2),
